@@ -3,7 +3,8 @@
 (* Concurrent pony db_sessions on shared rows, at statement granularity (C20, C21, C35).          *)
 (*                                                                                                 *)
 (* What is modelled (pony/orm/core.py, pony/orm/dbproviders/sqlite.py):                            *)
-(*  * one entity T(id, a, b) whose two non-key attributes have a *kind* each (constants KA, KB):   *)
+(*  * one entity T(id, a, b) whose two non-key attributes have a *kind* each (chosen in Init from   *)
+(*    the constant sets KA, KB, so that one TLC run covers several entity declarations):          *)
 (*      "opt"      ordinary attribute, takes part in optimistic checks                             *)
 (*      "nonopt"   Required(int, optimistic=False) or a float attribute (RealConverter.optimistic  *)
 (*                 = False): read bit is set, re-delivery is compared, but it never appears in the *)
@@ -27,6 +28,8 @@
 (*      QFU     the same with .for_update()          GFU(o,m)  T.get_for_update(id=o [,nowait|..]) *)
 (*      RC      set(P[1].items)  (Set.copy: LoadColl)     LC  len(P[1].items)                      *)
 (*      F       flush()              C  leave the db_session (commit)       X  rollback()          *)
+(*    Session 1 may be given its own alphabet and modes (OpSet1/Modes1 vs OpSetN/ModesN): one     *)
+(*    reader or locker against writers, or symmetric sessions when the sets are equal.             *)
 (*    Every operation that reaches the database first flushes pending changes                      *)
 (*    (SessionCache.prepare_connection_for_query_execution); the first write statement, the first  *)
 (*    query of an immediate/serializable session and every for_update query open the transaction:  *)
@@ -46,8 +49,17 @@
 (*    selected by RefPhantomRemove = TRUE; FALSE transcribes what Set.db_reverse_remove really     *)
 (*    does - it silently removes the item - and makes RepeatableOrLoud fail, see C21).             *)
 (*                                                                                                 *)
+(*  * after an UPDATE the values of volatile attributes are forgotten (_update_dbvals_), the next *)
+(*    read reloads the whole row (notLoaded; obj._load_() raises UnrepeatableReadError if the row  *)
+(*    has disappeared).                                                                            *)
+(*  * get_for_update on a row that another session deleted returns None even when the object is    *)
+(*    cached; T.get(id=o) of a cached object never goes to the database.                           *)
+(*                                                                                                 *)
 (* Deliberate deviations: a session is one transaction (commit ends it); 'updated' is folded into  *)
-(* 'loaded'; a failed or finished session's local state is reset (it is not observable any more).  *)
+(* 'loaded'; a failed or finished session's local state is reset (it is not observable any more);  *)
+(* a W on the link attribute toggles membership (the value assigned is part of the behaviour).     *)
+(* Every state carries the observation record ev = [s, k, o, x, m, step, out, why, retv, rets] of  *)
+(* the action that produced it; the harness replays behaviours from it (harness/sched_occ.py).     *)
 (* Ghost variables (not part of pony): seen, collSeen, written, locked, applied, ev.                *)
 (***************************************************************************************************)
 EXTENDS Integers, Sequences, FiniteSets, TLC
